@@ -128,7 +128,7 @@ def run(ctx):
             if tampered is None and prim == 'mpmc':
                 tampered = _tamper(ex)
     # all recorded executions are judged in one parallel pass (an execution is self-contained: it starts with its Reset)
-    acc, rejs, n_exec = tracecheck.validate(ctx, SPEC, CFG, allrows, tagbase='ring', par=8, max_rej=4)
+    acc, rejs, n_exec = tracecheck.validate(ctx, SPEC, CFG, allrows, tagbase='ring', chunk_events=6000, par=8, max_rej=4)
     for rj in rejs:
         rs = rj['exec'][0]
         tracecheck.report(ctx, [rj], f'h_ring --prim {rs.get("prim")} --seed {rs.get("seed")} execution {rs.get("ex")} ({rs.get("kind")}/{rs.get("style")} cap {rs.get("cap")})',
